@@ -96,23 +96,31 @@ theorem unify_conflict_empty (U : Ty → Prop) (fac : Option Ty) (hU : UnivOK U 
 theorem updateMap_conflict (m : UMap) (k : Ty) (v : Option Ty) :
     updateMap m k v = none ↔ ∃ old, m.get k = some (some old) ∧ beqO (some old) v = false := by
   unfold updateMap
-  split
-  · rename_i old hg
-    cases hb : beqO (some old) v
-    · simp only [Bool.false_eq_true, if_false, true_iff]
-      exact ⟨old, rfl, hb⟩
-    · simp only [if_true]
-      constructor
-      · intro h; cases h
-      · rintro ⟨old', h1, h2⟩
-        have : old = old' := by simpa using h1
-        rw [← this, hb] at h2
-        cases h2
-  · rename_i hnot
+  cases hg : m.get k with
+  | none =>
+    simp only []
     constructor
     · intro h; cases h
-    · rintro ⟨old, h1, _⟩
-      exact absurd h1 (hnot old)
+    · rintro ⟨old, h1, _⟩; cases h1
+  | some o =>
+    cases o with
+    | none =>
+      simp only []
+      constructor
+      · intro h; cases h
+      · rintro ⟨old, h1, _⟩; cases h1
+    | some old =>
+      simp only []
+      cases hb : beqO (some old) v
+      · simp only [Bool.false_eq_true, if_false, true_iff]
+        exact ⟨old, rfl, hb⟩
+      · simp only [if_true]
+        constructor
+        · intro h; cases h
+        · rintro ⟨old', h1, h2⟩
+          cases h1
+          rw [hb] at h2
+          cases h2
 
 /-- the fuel of `unifyV` never runs out (its own fuel; `kfuel` is the fuel of the kernel
     functions `isSubtype`/`getBoundRec`, adequate on regular types by C06/C07) -/
